@@ -19,6 +19,14 @@ Theorem C18_runner_spec : forall n els c0,
 Proof. exact runner_spec. Qed.
 Print Assumptions C18_runner_spec.
 
+(* the same from any runner state (any open-call count, any traces collected so far): stepping through the debug
+   adapter before running does not change what the rest of the run reports *)
+Theorem C18_runner_spec_any_state : forall n els c d traces,
+  run n (mkRunner els c d traces) <> VPanic ->
+  view (run n (mkRunner els c d traces)) = spec_run n els c.
+Proof. exact run_spec_run. Qed.
+Print Assumptions C18_runner_spec_any_state.
+
 (* passed exactly when execution reaches a BRK and every assertion encountered on the way holds *)
 Theorem C18_pass_meaning : forall els c0,
   (forall n, run n (runner0 els c0) <> VPanic) ->
@@ -147,7 +155,7 @@ Proof. exact witnesses_now_fail. Qed.
 
 (* step_over / step_out (used by the debug adapter): the crate's two unit tests, `jsr foo / brk / foo: nop / rts` *)
 Definition so_image : list N := [32; 4; 192; 0; 234; 96]%N.
-Definition so_runner : runner := mkRunner [] (cpu_init 49152 (load_program 49152 so_image)) [].
+Definition so_runner : runner := mkRunner [] (cpu_init 49152 (load_program 49152 so_image)) 0 [].
 Example C18_step_over_unit_test :
   match step_over 10 so_runner with Some (Running r) => rPC (r_cpu r) = 49155 | _ => False end.
 Proof. vm_compute. reflexivity. Qed.
